@@ -120,9 +120,31 @@ def strip_comments(text):
     return "".join(out)
 
 
-def grep_forbidden():
+def import_closure(roots):
+    """lean source files (relative module names) reachable from the given modules
+    through `import BacVerif.*` / `import Drv.*` lines"""
+    seen, todo = {}, list(roots)
+    while todo:
+        m = todo.pop()
+        if m in seen:
+            continue
+        path = os.path.join(LEAN, *m.split(".")) + ".lean"
+        if not os.path.exists(path):
+            continue
+        seen[m] = path
+        for line in open(path, encoding="utf-8"):
+            mm = re.match(r"\s*(?:public\s+)?import\s+((?:BacVerif|Drv)\.[\w.]+)", line)
+            if mm:
+                todo.append(mm.group(1))
+    return seen
+
+
+def grep_forbidden(roots=None):
+    """escape hatches in the Lean files the property's targets depend on
+    (the whole tree when no roots are given)"""
     hits = []
-    for path in lean_sources():
+    paths = list(import_closure(roots).values()) if roots else list(lean_sources())
+    for path in sorted(paths):
         txt = strip_comments(open(path, encoding="utf-8").read())
         for ln, line in enumerate(txt.split("\n"), 1):
             if FORBIDDEN_RE.search(line):
@@ -410,7 +432,10 @@ def run_check(prop_id, mod, tier, seed, replay=None):
             thms, bad = audit_axioms(prop_id)
             ctx.obligations = thms
             ctx.broken.extend(bad)
-            hits = grep_forbidden()
+            roots = [t for t in mod.LEAN_TARGETS if t.startswith("BacVerif.")]
+            roots += ["BacVerif.Audit." + prop_id]
+            roots += ["Drv." + t[4:].upper() for t in mod.LEAN_TARGETS if t.startswith("drv_")]
+            hits = grep_forbidden(roots)
             if hits:
                 ctx.broken.append("forbidden constructs: " + "; ".join(hits[:10]))
             if tier == "thorough" and getattr(mod, "LEANCHECKER", None):
